@@ -305,6 +305,40 @@ def _witness_guard_implies_no_panic(prog, w):
     return True
 
 
+def _witness_occupied_entry_is_error(prog, w):
+    """every path of `fn` on which the map entry it looks up is Occupied ends in Err (nothing is let through twice)"""
+    f = prog.fn_opt(w["fn"])
+    if f is None:
+        raise CheckError("witness anchor %s not found" % w["fn"])
+    body = f.body
+    sws = [sw for sw in mir.enum_switches(prog, body) if sw.adt.endswith("::map::Entry") or sw.adt.endswith("::Entry")]
+    if not sws:
+        raise CheckError("witness %s: no match on a map Entry" % w["fn"])
+    oks = {b for b, blk in enumerate(body.blocks) for s in blk["s"] if s["k"] == "assign" and s["r"]["k"] == "agg"
+           and s["r"].get("adt") == "core::result::Result" and s["r"].get("variant") == "Ok" and s["p"][0] == 0}
+    errs = {b for b, blk in enumerate(body.blocks) for s in blk["s"] if s["k"] == "assign" and s["r"]["k"] == "agg"
+            and s["r"].get("adt") == "core::result::Result" and s["r"].get("variant") == "Err"}
+    for sw in sws:
+        vac = sw.arms.get("Vacant")
+        occ = sw.arms.get("Occupied", sw.otherwise)
+        if occ is None:
+            raise CheckError("witness %s: the Occupied side of the Entry match was not found" % w["fn"])
+        avoid = {vac} if vac is not None and vac != occ else set()
+        region = body.reachable(occ, avoid=avoid) | {occ}
+        # blocks shared with the Vacant side (the join) are not the Occupied side's doing
+        if vac is not None:
+            region -= (body.reachable(vac, avoid={occ}) | {vac}) - {occ}
+        if region & oks:
+            w["_why"] = "%s returns Ok on a path where the entry is Occupied (line %s)" % (
+                f.path.split("::", 1)[1], sorted(body.blocks[b]["t"].get("ln") for b in region & oks))
+            return False
+        if not (region & errs) and not any(
+                (mir.callee_path(t) or "").endswith(("at_pos", "with_err_at", "from_residual")) for b, t in body.calls() if b in region):
+            w["_why"] = "the Occupied side of %s builds no error" % f.path.split("::", 1)[1]
+            return False
+    return True
+
+
 def witness_holds(prog, w):
     """re-check one machine-checkable part of an audited invariant (tables/panic_witnesses.json)."""
     if w["kind"] == "callers_prove_index":
@@ -313,6 +347,8 @@ def witness_holds(prog, w):
         return _witness_zero_test_on_divisor(prog, w)
     if w["kind"] == "guard_implies_no_panic":
         return _witness_guard_implies_no_panic(prog, w)
+    if w["kind"] == "occupied_entry_is_error":
+        return _witness_occupied_entry_is_error(prog, w)
     if w["kind"] != "parser_mandatory":
         raise CheckError("unknown witness kind %s" % w["kind"])
     root = prog.fn_opt(w["fn"])
